@@ -69,6 +69,11 @@ theorem sens_effects_ok : sens_effects.all effectAllowed = true := by decide +ke
 theorem option_forwarding_ok : ctor_sites.all forwardingOk = true ∧
     passthroughRequired.all (fun r => builder_passthrough.contains r) = true := by decide +kernel
 
+/-- enum-valued options (`type_of_map`, `kspace_key`) are only compared with `==` / `!=` (the key option is also used as
+a dictionary key): every accepted form of the option — member, lower / UPPER / Mixed-case string — selects the same branch
+everywhere, so `Sens.forwardMap`'s single `ty` describes the behaviour -/
+theorem enum_compares_ok : enum_compares.all enumCompareOk = true := by decide +kernel
+
 /-- no engine overrides `compute_sensitivity_map` -/
 theorem compute_sensitivity_map_single_def : compute_sensitivity_map_defs = computeDefs := by decide
 
